@@ -29,7 +29,7 @@ def _named(clauses):
 class Contract:
     def __init__(self, key, params=None, returns=None, requires=None, ensures=None, modifies=None,
                  raises=None, loops=None, ghost=None, inline=False, pure=False, assumed=False,
-                 ensures_raise=None, locals=None, note="", fresh_result=False, props=(), call_sites=None, hints=None, rt_trace=False, tolerate_unsupported=False, caller_ensures=None, callers_assume_no_raise=False):
+                 ensures_raise=None, locals=None, note="", fresh_result=False, props=(), call_sites=None, hints=None, rt_trace=False, tolerate_unsupported=False, caller_ensures=None, callers_assume_no_raise=False, assume_absent=None):
         self.key = key
         self.params = {k: parse_type(v) for k, v in (params or {}).items()}
         self.returns = parse_type(returns) if returns is not None else None
@@ -53,6 +53,7 @@ class Contract:
         self.hints = _named(hints)
         self.tolerate_unsupported = tolerate_unsupported  # unsupported paths are dropped and reported, not fatal
         self.callers_assume_no_raise = callers_assume_no_raise  # the exceptions in `raises` are excluded by an assumption listed in evidence
+        self.assume_absent = dict(assume_absent or {})  # {exception: reason}: assumed never to be raised by built-in operations here
         self.caller_ensures = caller_ensures  # names of the ensures clauses callers may assume (None = all)
         self.rt_trace = rt_trace  # output-trace clauses are comparable at run time (no printing callees)
         self.call_sites = {k: _named(v) for k, v in (call_sites or {}).items()}
